@@ -135,7 +135,8 @@ def run(ctx):
                 "differenced region equals the same per-cell symbol, for ALL cell contents (bounded in shape: 1-3 dims, extents 1-3, with/without scaffold); "
                 "(2) structural obligations on every ffunc's get_initial_regions: the grand-total corner reads no common value and no entry of any dimension",
         "obligations": len(sym) + len(cr_obls), "discharged": sum(1 for r in sym if r[1] == "unsat") + sum(1 for o in cr_obls if o[1]),
-        "solver_s": round(sym_s, 2), "corner_reads": [list(map(str, o)) for o in cr_obls], "proof_stale": cr_stale}
+        "solver_s": round(sym_s, 2), "back_ends": ["z3 (symbolic contents)", "syntactic reads analysis on the AST"],
+        "functions_under_contract": ["ccubes.ccube._compute_common_cells_from_marginal_diffs"] + [o[0].split("/")[0] for o in cr_obls], "corner_reads": [list(map(str, o)) for o in cr_obls], "proof_stale": cr_stale}
     if cr_stale:
         ctx.notes.append("proof_stale: %r - decided by the bounded encoding comparison" % (cr_stale,))
     ctx.assumptions += ["bounded: holds on the enumerated cube/call/encoding scope only (engine C is the bounded stand-in, not a proof)",
